@@ -226,6 +226,13 @@ pub fn run_all() {
   }
 }
 
+thread_local! {
+  /// where the scripted streams note that an item was taken from them (the log of the current behaviour)
+  static STREAM_LOG: RefCell<Option<std::sync::Arc<crate::probe::Shared>>> = RefCell::new(None);
+}
+pub fn set_stream_log(sh: Option<std::sync::Arc<crate::probe::Shared>>) {
+  STREAM_LOG.with(|l| *l.borrow_mut() = sh);
+}
 /// bumped whenever one of our leaf futures makes progress
 static ACTIVITY: Shared<u64> = Shared(Mutex::new(None), || 0);
 fn activity() {
@@ -304,6 +311,12 @@ impl Stream for ScriptStream {
       match s.queue.pop_front() {
         Some((t, v)) => {
           activity();
+          if t == 'N' {
+            // every item taken from the stream is an observation, ordered with the notifications
+            if let Some(sh) = STREAM_LOG.with(|l| l.borrow().clone()) {
+              sh.record(0, 'I', Val::U);
+            }
+          }
           Poll::Ready(match t {
             'N' => Some(Ok(v)),
             'E' => Some(Err(v)),
